@@ -742,6 +742,14 @@ def check_C08(ctx):
                ('push_before_clear', mut_first(ev('UcClr'), swap_with_next))])
 
 
+def check_C09(ctx):
+    std_check(ctx, [('MC_Sync', 'MC_Sync_felock.cfg')], gen_felock_prog, 30, 6,
+              [('status_not_published', mut_first(ev('FeMark'), drop_at)),
+               ('returns_with_wrong_status', mut_first(lambda e: e['e'] == 'FeChk' and e['a'][1] != e['a'][2], lambda evs, i: set_arg(1, evs[i]['a'][2])(evs, i))),
+               ('unlock_before_signal', mut_pair(lambda a, b: a['e'] == 'CvSignal' and b['e'] == 'SqDeq', lambda evs, i: drop_at(evs, i)))],
+              thorough_designs=[('MC_Sync', 'MC_Sync_felock4.cfg')])
+
+
 def check_C12(ctx):
     std_check(ctx, [('MC_Core', 'MC_Core_small.cfg')],
               lambda rng: gen_core_prog(rng, maxb=10, flagset=(0, F_STACK, F_STACK, F_PF | F_STACK, F_ATTR, F_DETACH | F_STACK, F_PF)),
@@ -773,7 +781,7 @@ def check_C14(ctx):
               thorough_designs=[('MC_Sync', 'MC_Sync_once3.cfg')])
 
 
-CHECKS = {'C01': check_C01, 'C02': check_C02, 'C04': check_C04, 'C05': check_C05, 'C06': check_C06, 'C07': check_C07,
+CHECKS = {'C01': check_C01, 'C02': check_C02, 'C04': check_C04, 'C09': check_C09, 'C05': check_C05, 'C06': check_C06, 'C07': check_C07,
           'C08': check_C08, 'C12': check_C12, 'C13': check_C13, 'C14': check_C14}
 
 
@@ -890,6 +898,30 @@ def gen_uncond_prog(rng):
         for _ in range(rng.randint(0, 2)):
             ops.insert(rng.randrange(len(ops) + 1), (OP['YD'], rng.choice((0, 1, 2)), 0, 0))
     bodies = [prod, cons]
+    rng.shuffle(bodies)
+    return {'init': [], 'bodies': _spawn_join(rng, bodies)}
+
+
+def gen_felock_prog(rng):
+    np_, nc = rng.randint(1, 3), rng.randint(1, 3)
+    items = rng.randint(max(np_, nc), 6)
+
+    def split(total, k):
+        cuts = sorted(rng.randint(0, total) for _ in range(k - 1))
+        return [b_ - a_ for a_, b_ in zip([0] + cuts, cuts + [total])]
+    bodies = []
+    for cnt in split(items, np_):
+        ops = []
+        for _ in range(cnt):
+            ops += [(OP['FEWL'], 0, 0, 2), (OP['FEMS'], 0, 1, 0)]
+            if rng.random() < 0.2:
+                ops.append((OP['YD'], rng.choice((0, 1, 2)), 0, 0))
+        bodies.append(ops)
+    for cnt in split(items, nc):
+        ops = []
+        for _ in range(cnt):
+            ops += [(OP['FEWL'], 0, 1, 1), (OP['FEMS'], 0, 0, 0)]
+        bodies.append(ops)
     rng.shuffle(bodies)
     return {'init': [], 'bodies': _spawn_join(rng, bodies)}
 
